@@ -158,29 +158,3 @@ harness!(c07_state_to_box, unwind = 102, {
         assert!(b.angle == Some(mean[2]), "non-zero angle kept");
     }
 });
-
-// A FRESH box filter initiated and then updated with the same box returns exactly that box (innovation 0): one symbolic
-// field per harness, the others concrete (the 10x10 products then constant-fold except for the symbolic row/column).
-fn fresh_roundtrip(b: Universal2DBox) {
-    let f = Universal2DBoxKalmanFilter::default();
-    let s0 = f.initiate(&b);
-    let s1 = f.predict(&s0);
-    let s2 = f.update(&s1, &b);
-    let r = Universal2DBox::try_from(s2).unwrap();
-    assert!(r.xc == b.xc && r.yc == b.yc && r.aspect == b.aspect && r.height == b.height, "fresh filter round trip: centre / aspect / height unchanged");
-    let a_in = b.angle.unwrap_or(0.0);
-    let a_out = r.angle.unwrap_or(0.0);
-    assert!(a_out == a_in, "fresh filter round trip: angle unchanged (0 <-> None)");
-}
-harness!(c07_box_fresh_roundtrip_angle, unwind = 102, {
-    let a = any_f32_in(-10.0, 10.0);
-    fresh_roundtrip(Universal2DBox::new(10.0, 20.0, Some(a), 1.5, 3.0));
-});
-harness!(c07_box_fresh_roundtrip_xc, unwind = 102, {
-    let x = any_f32_in(-10000.0, 10000.0);
-    fresh_roundtrip(Universal2DBox::new(x, 20.0, None, 1.5, 3.0));
-});
-harness!(c07_box_fresh_roundtrip_height, unwind = 102, {
-    let h = any_f32_in(0.125, 1000.0);
-    fresh_roundtrip(Universal2DBox::new(10.0, 20.0, None, 1.5, h));
-});
